@@ -696,7 +696,10 @@ func (P *Program) BlockCutBy(b *ssa.BasicBlock, pred func(Lit) bool) bool {
 
 // GuardPaths enumerates the static call paths from a root (walk callback, function without product callers)
 // to instruction ins and returns, for each, the literals that hold along it (union of block guards).
-func (P *Program) GuardPaths(ins ssa.Instruction) [][]Lit {
+func (P *Program) GuardPaths(ins ssa.Instruction) [][]Lit { return P.GuardPathsVia(ins, nil) }
+
+// GuardPathsVia: like GuardPaths; when via != nil only the paths that enter ins's function through that call site.
+func (P *Program) GuardPathsVia(ins ssa.Instruction, via ssa.CallInstruction) [][]Lit {
 	var out [][]Lit
 	var walk func(fn *ssa.Function, acc litSet, onPath map[*ssa.Function]bool)
 	walk = func(fn *ssa.Function, acc litSet, onPath map[*ssa.Function]bool) {
@@ -718,6 +721,9 @@ func (P *Program) GuardPaths(ins ssa.Instruction) [][]Lit {
 			return
 		}
 		for _, c := range callers {
+			if via != nil && fn == ins.Parent() && c != via {
+				continue
+			}
 			a2 := acc.union(newLitSet(P.BlockGuards(c.Block())))
 			walk(c.Parent(), a2, onPath)
 		}
